@@ -34,7 +34,7 @@ CHUNK = 1
 RULE = ("gen(seed) draws a workload: 1-2 requests (Content-Length / chunked bodies, stream <= 300 B "
         "in quick; ~18% carry a framing error after the header block: over-long chunk-size line by "
         "chunk extension or leading zeros, bad chunk size, bad chunk terminator, CL+TE, bad "
-        "Content-Length), application kind (web sync / async sleeping / @stream_request_body incl. early "
+        "Content-Length; ~20% of body requests send Expect: 100-continue), application kind (web sync / async sleeping / @stream_request_body incl. early "
         "finish / raw HTTPServerConnectionDelegate incl. answering from headers_received / plain "
         "callable, the latter two with or without "
         "set_close_callback and optionally never finishing), response scripts (sleeps, "
@@ -91,6 +91,10 @@ def build_request(i, r):
     lines = ["%s /%s%d HTTP/1.1" % (r.get("method", "POST"), r.get("hk", "s"), i), "Host: h"]
     if r.get("close"):
         lines.append("Connection: close")
+    if r.get("expect"):
+        # the server answers "HTTP/1.1 100 (Continue)" before reading the body; the raw client
+        # sends the body regardless (allowed) and simply receives the interim response
+        lines.append("Expect: 100-continue")
     bad = r.get("bad")  # framing error placed after the header block (see gen)
     if te == "chunked":
         lines.append("Transfer-Encoding: chunked")
@@ -506,6 +510,8 @@ def gen(rng, tier, index):
             r["hk"] = "w" if app == "raw" else "c"
         if i == nreq - 1 and rng.random() < 0.12:
             r["close"] = True
+        if te != "none" and rng.random() < 0.2:
+            r["expect"] = True
         # response script
         steps = []
         sizes = [1000, 3000, 6000] if bp else [0, 1, 30, 300]
@@ -1026,6 +1032,12 @@ def run(scn, full_log=False):
                     bad("body.finish_with_partial_body",
                         f"request {tgt} ({app_kind}, fault {fdesc}): finish() after {len(got)} of "
                         f"{len(sent)} body bytes")
+                if reqs[ridx].get("expect"):
+                    probes["expect_100_continue_started"] = \
+                        probes.get("expect_100_continue_started", 0) + 1
+                    if nC and not nF and not got:
+                        probes["expect_100_closed_before_body"] = \
+                            probes.get("expect_100_closed_before_body", 0) + 1
                 if metas[ridx].get("bad"):
                     probes["malformed_request_started"] = \
                         probes.get("malformed_request_started", 0) + 1
